@@ -221,6 +221,19 @@ func (g *Engine) registerIntrinsics() {
 		}
 		panic(pathEnd{"concretize-out-of-range"})
 	})
+	vx("vxNativeRun", func(e *Exec, a []Value, pos token.Pos) Value { return e.tb.False() })
+	vx("vxTLSServerName", func(e *Exec, a []Value, pos token.Pos) Value {
+		if v, ok := e.records["tls.ServerName"]; ok {
+			return v
+		}
+		return e.mkStr("")
+	})
+	vx("vxDTLSServerName", func(e *Exec, a []Value, pos token.Pos) Value {
+		if v, ok := e.records["dtls.ServerName"]; ok {
+			return v
+		}
+		return e.mkStr("")
+	})
 	vx("vxGuardsOff", func(e *Exec, a []Value, pos token.Pos) Value {
 		e.guards = nil
 		return nil
